@@ -38,9 +38,10 @@ type Shape struct {
 	Granter bool   `json:"granter"` // AuthInfo.fee.granter set
 	Memo    bool   `json:"memo"`
 	Timeout bool   `json:"timeout"`
-	FeeEq   bool   `json:"feeEq"` // declared fee == fee of the embedded Ethereum tx
-	GasEq   bool   `json:"gasEq"` // declared gas limit == gas of the embedded Ethereum tx
-	Mode    string `json:"mode"`  // check | recheck | simulate | deliver
+	Fee     string `json:"fee"`     // declared fee vs the embedded Ethereum tx's: eq | more | less | denom | none
+	Gas     string `json:"gas"`     // declared gas limit vs the embedded Ethereum tx's: eq | more | less
+	EthType string `json:"ethType"` // legacy | dyn (EIP-1559) | al (EIP-2930)
+	Mode    string `json:"mode"`    // check | recheck | simulate | deliver
 }
 
 // SingleEth tells whether the builder treats the shape as a client-built Ethereum transaction
@@ -48,6 +49,13 @@ type Shape struct {
 // the harness, not a verdict: every other shape is built with the Cosmos tx builder.
 func (s Shape) SingleEth() bool {
 	return len(s.Msgs) == 1 && s.Msgs[0].D == 0 && len(s.Msgs[0].Leaf) == 1 && s.Msgs[0].Leaf[0] == "eth"
+}
+
+// EthEnvelope: an unsigned transaction whose first message is an Ethereum message and that lists further messages
+// is built the adversarial way - the envelope clients build for the first Ethereum message (its fee, its gas limit,
+// no signatures), with the other messages appended. (A Cosmos-style envelope would be refused for its fee alone.)
+func (s Shape) EthEnvelope() bool {
+	return len(s.Msgs) >= 2 && !s.Sigs && !s.Sinfos && s.Msgs[0].D == 0 && len(s.Msgs[0].Leaf) == 1 && s.Msgs[0].Leaf[0] == "eth"
 }
 
 const (
@@ -101,11 +109,21 @@ func extOptions(kind string) (crit, non []*codectypes.Any) {
 	return
 }
 
-// ethMsg builds a signed legacy transfer of 1 wei from a to the recipient.
-func (e *Env) ethMsg(a *chain.Acct, nonce uint64) *evmtypes.MsgEthereumTx {
+// ethMsg builds a signed transfer of 1 wei from a to the recipient (legacy unless typ says otherwise).
+func (e *Env) ethMsg(a *chain.Acct, nonce uint64, typ string) *evmtypes.MsgEthereumTx {
 	to := e.Rcpt.Addr
-	stx := chain.SignEth(a, &ethtypes.LegacyTx{Nonce: nonce, GasPrice: big.NewInt(ethGasPrice), Gas: ethGas, To: &to, Value: big.NewInt(1)}, chain.EIP155)
-	return chain.EthMsg(stx, a.Addr)
+	var td ethtypes.TxData
+	switch typ {
+	case "", "legacy":
+		td = &ethtypes.LegacyTx{Nonce: nonce, GasPrice: big.NewInt(ethGasPrice), Gas: ethGas, To: &to, Value: big.NewInt(1)}
+	case "dyn":
+		td = &ethtypes.DynamicFeeTx{ChainID: big.NewInt(chain.EIP155), Nonce: nonce, GasFeeCap: big.NewInt(ethGasPrice), GasTipCap: big.NewInt(1), Gas: ethGas, To: &to, Value: big.NewInt(1)}
+	case "al":
+		td = &ethtypes.AccessListTx{ChainID: big.NewInt(chain.EIP155), Nonce: nonce, GasPrice: big.NewInt(ethGasPrice), Gas: ethGas, To: &to, Value: big.NewInt(1)}
+	default:
+		infra("unknown eth type %q", typ)
+	}
+	return chain.EthMsg(chain.SignEth(a, td, chain.EIP155), a.Addr)
 }
 
 // leafMsg builds the real message of a leaf kind, always acting for a.
@@ -131,7 +149,7 @@ func (e *Env) leafMsg(kind string, a *chain.Acct, ethNonce uint64) sdk.Msg {
 	}
 	switch kind {
 	case "eth":
-		return e.ethMsg(a, ethNonce)
+		return e.ethMsg(a, ethNonce, "legacy")
 	case "send":
 		return banktypes.NewMsgSend(a.Acc(), e.Rcpt.Acc(), sdk.NewCoins(sdk.NewInt64Coin(chain.Denom, 1)))
 	case "other":
@@ -184,7 +202,7 @@ type Built struct {
 // Build makes the real transaction bytes of shape s sent by a, against the state CheckTx sees now.
 func (e *Env) Build(s Shape, a *chain.Acct) Built {
 	seq, num := AcctInfo(e.C, a)
-	if s.SingleEth() {
+	if s.SingleEth() || s.EthEnvelope() {
 		return Built{Bytes: e.buildEth(s, a, seq, num), Sender: a, Seq: seq}
 	}
 	// an Ethereum message placed in a Cosmos-signed transaction would (if it ever reached the
@@ -205,7 +223,7 @@ func (e *Env) Build(s Shape, a *chain.Acct) Built {
 	if s.Timeout {
 		o.Timeout = uint64(e.C.Height + 1_000_000)
 	}
-	if s.Payer || s.Granter || !s.FeeEq || !s.GasEq || s.Sigs != s.Sinfos {
+	if s.Payer || s.Granter || s.Fee != "eq" || s.Gas != "eq" || s.Sigs != s.Sinfos {
 		infra("shape outside the builder's domain: %+v", s)
 	}
 	bz, err := e.C.CosmosTx(a, msgs, o)
@@ -218,12 +236,20 @@ func (e *Env) Build(s Shape, a *chain.Acct) Built {
 // buildEth: the transaction clients build (MsgEthereumTx.BuildTx), then perturbed field by field.
 func (e *Env) buildEth(s Shape, a *chain.Acct, seq, num uint64) []byte {
 	c := e.C
-	msg := e.ethMsg(a, seq)
+	msg := e.ethMsg(a, seq, s.EthType)
 	btx, err := msg.BuildTx(c.Enc.TxConfig.NewTxBuilder(), chain.Denom)
 	if err != nil {
 		infra("BuildTx: %v", err)
 	}
 	pt := btx.(interface{ GetProtoTx() *sdktx.Tx }).GetProtoTx()
+	for i, el := range s.Msgs[1:] {
+		// further messages of an Ethereum envelope; a further Ethereum message gets the nonce it would need to execute
+		any, err := codectypes.NewAnyWithValue(e.elemMsg(el, a, seq+uint64(i)+1))
+		if err != nil {
+			panic(err)
+		}
+		pt.Body.Messages = append(pt.Body.Messages, any)
+	}
 	crit, non := extOptions(s.Ext)
 	pt.Body.ExtensionOptions = crit
 	pt.Body.NonCriticalExtensionOptions = non
@@ -239,11 +265,27 @@ func (e *Env) buildEth(s Shape, a *chain.Acct, seq, num uint64) []byte {
 	if s.Granter {
 		pt.AuthInfo.Fee.Granter = e.Granter.Acc().String()
 	}
-	if !s.FeeEq {
+	switch s.Fee {
+	case "eq":
+	case "more":
 		pt.AuthInfo.Fee.Amount = sdk.NewCoins(sdk.NewInt64Coin(chain.Denom, ethGas*ethGasPrice+1))
+	case "less":
+		pt.AuthInfo.Fee.Amount = sdk.NewCoins(sdk.NewInt64Coin(chain.Denom, ethGas*ethGasPrice-1))
+	case "denom":
+		pt.AuthInfo.Fee.Amount = sdk.NewCoins(sdk.NewInt64Coin(chain.Denom2, ethGas*ethGasPrice))
+	case "none":
+		pt.AuthInfo.Fee.Amount = sdk.Coins{}
+	default:
+		infra("unknown fee variant %q", s.Fee)
 	}
-	if !s.GasEq {
+	switch s.Gas {
+	case "eq":
+	case "more":
 		pt.AuthInfo.Fee.GasLimit = ethGas + 1
+	case "less":
+		pt.AuthInfo.Fee.GasLimit = ethGas - 1
+	default:
+		infra("unknown gas variant %q", s.Gas)
 	}
 	if s.Sinfos {
 		pt.AuthInfo.SignerInfos = []*sdktx.SignerInfo{{
@@ -282,6 +324,6 @@ func (e *Env) buildEth(s Shape, a *chain.Acct, seq, num uint64) []byte {
 }
 
 func (s Shape) String() string {
-	return fmt.Sprintf("%v ext=%s sigs=%v sinfos=%v payer=%v granter=%v memo=%v timeout=%v feeEq=%v gasEq=%v mode=%s",
-		s.Msgs, s.Ext, s.Sigs, s.Sinfos, s.Payer, s.Granter, s.Memo, s.Timeout, s.FeeEq, s.GasEq, s.Mode)
+	return fmt.Sprintf("%v ext=%s sigs=%v sinfos=%v payer=%v granter=%v memo=%v timeout=%v fee=%s gas=%s type=%s mode=%s",
+		s.Msgs, s.Ext, s.Sigs, s.Sinfos, s.Payer, s.Granter, s.Memo, s.Timeout, s.Fee, s.Gas, s.EthType, s.Mode)
 }
